@@ -1,6 +1,7 @@
 import Driver.Util
 import DiskfsModel.Core.Crc
 import DiskfsModel.Model.Gpt
+import DiskfsModel.Model.GptGeom
 import DiskfsModel.Model.Mbr
 import DiskfsModel.Model.MbrTable
 import DiskfsModel.Spec.GptValid
@@ -116,7 +117,7 @@ def tableOfArgs (args : List String) (pre : String) : Table :=
 def opWrite (args : List String) : String :=
   let c := parseCfg args
   let t := tableOfArgs args ""
-  match Gpt.write c crc32 t (argNatD args "size") with
+  match Gpt.writeUp c crc32 t (argNatD args "size") with
   | .ok (ws, t') =>
     s!"res=ok\tws={wrsFinger ws}\tparts={partsStr t'.parts}\tgeo={t'.primaryHeader},{t'.secondaryHeader},{t'.firstData},{t'.lastData}"
   | .err _ => "res=err"
@@ -234,7 +235,7 @@ def opRewrite (args : List String) : String :=
   let lss := argNatD args "lss" 512
   match Gpt.read c crc32 d size lss with
   | (.ok t1, _) =>
-    match Gpt.write c crc32 t1 size with
+    match Gpt.writeUp c crc32 t1 size with
     | .ok (ws, _) => s!"res=ok\tws={wrsFinger ws}\tsame={if unchangedBy d ws then 1 else 0}"
     | .err _ => "res=err"
     | .panic _ => "res=panic"
@@ -326,10 +327,8 @@ def parseWin (s : String) (size : Nat) : Nat × Nat :=
   | [h, t] => (h.toNat!, t.toNat!)
   | _ => (size, 0)
 
-/-- gpt.Table.Repair(diskSize) -/
-def repairTable (t : Table) (size : Nat) : Table :=
-  let sh := u64sub (u64 size / t.lss) 1
-  { t with secondaryHeader := sh, lastData := u64sub (u64sub sh (partSectors t)) 1 }
+/-- gpt.Table.Repair(diskSize) (Model/GptGeom.lean: array sectors rounded up, as the code is now) -/
+def repairTable (t : Table) (size : Nat) : Table := repairUp t size
 
 /-- old = gpt|none|mbr|raw, then for every prefix k and every subset of the family of the in-flight
     write the class of gpt.Read and of partition.Read:  g0=…,g1=… p0=…
@@ -352,7 +351,7 @@ def opCrash (args : List String) : String :=
   -- the old state
   let (imgA, oldMbr) : Img × Option (List Mbr.Part) :=
     if oldKind == "gpt" then
-      match Gpt.write c crc32 (tableOfArgs args "o") size with
+      match Gpt.writeUp c crc32 (tableOfArgs args "o") size with
       | .ok (ws, _) => (ws.foldl Img.apply img0, none)
       | _ => (img0, none)
     else if oldKind == "mbr" then
@@ -363,7 +362,7 @@ def opCrash (args : List String) : String :=
   let img1 : Img :=
     match (arg args "pre").map (·.splitOn ":") with
     | some [k, f] =>
-      match Gpt.write c crc32 (tableOfArgs args "p") size with
+      match Gpt.writeUp c crc32 (tableOfArgs args "p") size with
       | .ok (ws, _) =>
         let imgk := (ws.take k.toNat!).foldl Img.apply imgA
         match ws[k.toNat!]? with
@@ -394,7 +393,7 @@ def opCrash (args : List String) : String :=
   match newTable with
   | none => "res=noread"
   | some nt =>
-  match Gpt.write c crc32 nt size with
+  match Gpt.writeUp c crc32 nt size with
   | .ok (ws, _) =>
     let newParts := partsOf (ws.foldl Img.apply img1)
     let both (d : Dev) : Char × Char × Char × Char :=
